@@ -769,7 +769,7 @@ var c06Crash = &crashCheck{
 	property: "C06", name: "TestVerif_C06_Kill",
 	profile: func() *genProfile {
 		f := false
-		p := &genProfile{minOps: 3, maxOps: 25, reopen: true, park: true, tinyFiles: true, maxKeys: 8, buckets: []int{1}, checkVHash: &f, maxHeight: 3}
+		p := &genProfile{minOps: 3, maxOps: 25, reopen: true, park: true, crash: true, tinyFiles: true, maxKeys: 8, buckets: []int{1}, checkVHash: &f, maxHeight: 3}
 		if thorough() {
 			p.maxOps = 50
 		}
